@@ -111,10 +111,388 @@ def opt_min(a, b):
     return ite(is_none(a), b, ite(is_none(b), a, ite(some(a) <= some(b), a, b)))
 
 
-# ---------------------------------------------------------------- C13: planner / dialogue / sanitiser
+# ---------------------------------------------------------------- C11: retrieval
+
+@spec
+def ep_ts(e):
+    """the timestamp string the index parses for an episode: e.get("ts") or "" """
+    return ite("ts" in e and len(e["ts"]) > 0, e["ts"], "")
+
+
+@spec
+def hint_thr(h):
+    """similarity threshold read from the search hints: missing or None means 0.0"""
+    t = h.get("sim_threshold", 0.0)
+    return ite(is_none(t), 0.0, some(t))
+
+
+@spec
+def fused_of(f, it):
+    """f is the candidate dict `it` with an added score_fused (all original keys carried over unchanged)"""
+    return f["id"] == it["id"] and f.get("score") == it.get("score") and f.get("text") == it.get("text")
+# ---------------------------------------------------------------- C08: abstract file system (ghost `fs`)
+
+@spec
+def file_same(a, b, p):
+    """file p is the same in file systems a and b (both absent, or both present with equal content)"""
+    return ((p in a) == (p in b)) and implies(p in a, a[p] == b[p])
+
+
+@spec
+def file_is(a, p, data):
+    return (p in a) and a[p] == data
+
+
+@spec
+def no_temp_left(a, tmps):
+    return forall((q, 'str'), q in tmps, not (q in a))
+# ---------------------------------------------------------------- C09: run_parallel
+
+@spec
+def par_merged_ok(m, tasks):
+    """m lists every task's (key, result) exactly once, strictly ordered by (order_key(key), task index):
+    p is the sorting permutation (strictly increasing in a strict order => injective => a bijection on [0, n))"""
+    return (len(m) == len(tasks) and exists_fn(p,
+            forall(j, 0 <= j < len(m), 0 <= p(j) and p(j) < len(tasks) and m[j][0] == tasks[p(j)][0]
+                   and m[j][1] == task_res(p(j)))
+            and forall2(a, b, 0 <= a and a < b and b < len(m),
+                        (okey(tasks[p(a)][0]), p(a)) < (okey(tasks[p(b)][0]), p(b)))))
+
+
+@spec
+def par_errors_ok(L, tasks, started):
+    """L reports exactly the failed tasks among the `started` first ones, each once (key, exception type name,
+    message), strictly ordered by (order_key(key), task index)"""
+    return exists_fn(q,
+                     forall(t, 0 <= t < len(L), 0 <= q(t) and q(t) < started and task_fails(q(t))
+                            and L[t].key == tasks[q(t)][0] and L[t].exc_type == task_exc_type(q(t))
+                            and L[t].message == task_exc_msg(q(t)))
+                     and forall2(a, b, 0 <= a and a < b and b < len(L),
+                                 (okey(tasks[q(a)][0]), q(a)) < (okey(tasks[q(b)][0]), q(b)))
+                     and forall(i, 0 <= i < started and task_fails(i), exists(t, 0 <= t < len(L), q(t) == i)))
+
+
+# ---------------------------------------------------------------- C09: shard merge (hit dicts as dict-like records)
+
+@spec
+def hit_score(h):
+    return ite(h.has_score, h.score, ite(h.has__score, h._score, 0.0))
+
+
+@spec
+def hit_id(h):
+    return ite(h.has_id, h.id, 'None')
+
+
+@spec
+def hit_key(h):
+    return (0 - qscore_of(hit_score(h)), hit_id(h))
+
+
+# ---------------------------------------------------------------- C12: propagation
+
+@spec
+def node_tags(n):
+    """the tag list the seeder reads from a node: n.attrs.get("tags", [])"""
+    return n.attrs.get("tags", [])
+# ---------------------------------------------------------------- C16 / C10: log normalisation, staging, writers
+
+@spec
+def ci_on():
+    return env_get("CI", "").lower() == "true"
+
+
+@spec
+def is_identity_log(name):
+    return (name == "t1.jsonl" or name == "t2.jsonl" or name == "t4.jsonl" or name == "apply.jsonl"
+            or name == "turn.jsonl")
+
+
+@spec
+def zero_ms(rec):
+    return ite("ms" in rec, map_put(rec, "ms", jv(0.0)), rec)
+
+
+@spec
+def zero_durations(o):
+    return ite("durations_ms" in o and jv_is_dict(o["durations_ms"]),
+               map_put(o, "durations_ms", jv({k: 0.0 for k in jv_dict(o["durations_ms"]).keys()})), o)
+
+
+@spec
+def norm_slice(o):
+    return ite("slice_idx" in o and jv_int_ok(o["slice_idx"]),
+               map_put(o, "slice_idx", jv(jv_int_val(o["slice_idx"]))), o)
+
+
+@spec
+def norm_yield(o):
+    return ite("yielded" in o and jv_truthy(o["yielded"]),
+               map_put(norm_slice(o), "yielded", jv(True)),
+               map_del(map_del(o, "yielded"), "slice_idx"))
+
+
+@spec
+def norm_id(name, rec):
+    """the documented CI identity normalisation N(name, rec) as a function on records"""
+    if not ci_on():
+        return rec
+    if name == "t3_reflection.jsonl":
+        return zero_ms(rec)
+    if not is_identity_log(name):
+        return rec
+    if name == "turn.jsonl":
+        return norm_yield(zero_durations(map_del(zero_ms(rec), "now")))
+    return map_del(zero_ms(rec), "now")
+
+
+@spec
+def stage_ord_of(name):
+    """documented within-turn stream order; unknown streams sort last (99)"""
+    if name == "t1.jsonl":
+        return 1
+    if name == "t2.jsonl":
+        return 2
+    if name == "t3_plan.jsonl":
+        return 3
+    if name == "t3_dialogue.jsonl":
+        return 4
+    if name == "t4.jsonl":
+        return 5
+    if name == "apply.jsonl":
+        return 6
+    if name == "health.jsonl":
+        return 7
+    if name == "turn.jsonl":
+        return 8
+    if name == "scheduler.jsonl":
+        return 9
+    if name == "t3_reflection.jsonl":
+        return 10
+    return 99
+
+
+@spec
+def stage_key(r):
+    return (r.key.turn_id, r.key.stage_ord, r.key.slice_idx, r.key.seq, r.file_path)
+
+
+@spec
+def is_gen(path, n, p):
+    """p is the name of one of the backup generations 1..n of `path` (gname/gidx: see contracts/c16_logs.py)"""
+    return 1 <= gidx(path, p) and gidx(path, p) <= n and p == gname(path, gidx(path, p))
+
+
+@spec
+def same_file(fs, fs0, p):
+    """name p denotes the same thing (absent, or the same content) in both name spaces"""
+    return (p in fs) == (p in fs0) and implies(p in fs0, fs[p] == fs0[p])
+
+
+@spec
+def moved_file(fs, dst, fs0, src):
+    """dst now holds exactly what src held (absent if src was absent)"""
+    return (dst in fs) == (src in fs0) and implies(src in fs0, fs[dst] == fs0[src])
+
+
+@spec
+def wf_stager(s):
+    return s._bytes == bsum(s._buf, len(s._buf)) and s._seq >= 0
+
+
+@spec
+def stager_bounded(s):
+    """memory bound of the staging buffer: within the byte limit, except for a single record that alone exceeds it"""
+    return s._bytes <= s.byte_limit or len(s._buf) <= 1
+
+
+# ---------------------------------------------------------------- C15: OrderedDict TTL/LRU caches (engine/cache.py)
+
+@spec
+def okeys(d):
+    """keys of an insertion-ordered map, oldest first"""
+    return list(d.keys())
+
+
+@spec
+def wf_nscache(s):
+    """representation invariant of _NamespaceCache (capacity from the validated config is >= 0)"""
+    return s._max >= 0 and len(s._d) <= s._max
+
+
+@spec
+def ttl_fresh(ttl, now, ts):
+    """an entry stamped ts is still served at clock reading now (ttl == 0 disables expiry)"""
+    return ttl == 0 or now - ts <= ttl
+
+
+@spec
+def removed_at(q, oldq, p):
+    """q is oldq with the element at position p removed, order of the others kept"""
+    return (len(q) == len(oldq) - 1 and 0 <= p and p < len(oldq)
+            and forall(i, 0 <= i < len(q), q[i] == ite(i < p, oldq[i], oldq[i + 1])))
+
+
+@spec
+def moved_to_end_at(q, oldq, p):
+    """q is oldq with the element at position p moved to the end (newest), order of the others kept"""
+    return (len(q) == len(oldq) and 0 <= p and p < len(oldq) and q[len(q) - 1] == oldq[p]
+            and forall(i, 0 <= i < len(q) - 1, q[i] == ite(i < p, oldq[i], oldq[i + 1])))
+
+
+@spec
+def same_omap(d, oldd):
+    """ordered map unchanged: same keys, same entries, same recency order"""
+    return seq_eq(d, oldd) and seq_eq(okeys(d), okeys(oldd))
+
+
+@spec
+def suffix_from(q, oldq, off):
+    """q is oldq without its first `off` (oldest) elements"""
+    return len(q) == len(oldq) - off and forall(i, 0 <= i < len(q), q[i] == oldq[i + off])
+
+
+@spec
+def same_entries(d, oldd):
+    """every key of d was in oldd with the same entry (timestamp and value)"""
+    return forall((k, 'Un[K]'), k in d, k in oldd and d[k] == oldd[k])
+
+
+# ---------------------------------------------------------------- C19: reflection
 
 @spec
 def ntokens(s):
+    """number of space separated tokens of a summary ('' has none)"""
+    return ite(s == "", 0, len(s.split(" ")))
+
+
+@spec
+def no_space_in(xs):
+    return forall(i, 0 <= i < len(xs), not (" " in xs[i]))
+
+
+@spec
+def episode_id_of(agent, turn, slot, text):
+    """the reflection episode id as a function of (agent id, turn id, slot, text) only"""
+    return ("refl-" + turn + "-" + agent + "-" + str(slot) + "-" +
+            sha256_hex(agent + "|" + turn + "|" + str(slot) + "|" + text)[:12])
+# ---------------------------------------------------------------- C18: graph evolution layer (gel.py)
+
+@spec
+def esrc(a, b):
+    return ite(a <= b, a, b)
+
+
+@spec
+def edst(a, b):
+    return ite(a <= b, b, a)
+
+
+@spec
+def ekey(a, b):
+    """canonical undirected edge key of the unordered pair {a, b} (ekeyf(s, d) spells s + "→" + d)"""
+    return ekeyf(esrc(a, b), edst(a, b))
+
+
+@spec
+def clampf(x, lo, hi):
+    return ite(x > hi, hi, ite(x < lo, lo, x))
+
+
+@spec
+def below_floor(r0, f, fl):
+    """the decay pass drops the edge record r0: |w * f| < floor"""
+    return absr(r0['weight'] * f) < fl
+
+
+@spec
+def ticked_rec(r0, f, turn):
+    """the edge record r0 after one visit of the decay loop of tick() that keeps it (factor f, optional turn)"""
+    return {'id': r0['id'], 'src': r0['src'], 'dst': r0['dst'], 'weight': r0['weight'] * f, 'rel': r0['rel'],
+            'updated_at': ite(is_none(turn), r0['updated_at'], None),
+            'attrs': {'coact': r0['attrs']['coact'],
+                      'last_seen_turn': ite(is_none(r0['attrs']['last_seen_turn']) and not is_none(turn), turn,
+                                            r0['attrs']['last_seen_turn'])}}
+# ---------------------------------------------------------------- C06: snapshot helpers
+
+@spec
+def clampf_snap(x, lo, hi):
+    return ite(x < lo, lo, ite(x > hi, hi, x))
+
+
+@spec
+def round6(x):
+    """round(x, 6): the engine's uninterpreted `round_nd(x, 6)`; the facts assumed about it are listed in c06_snapshot.ROUND_FACTS"""
+    return round(x, 6)
+
+
+@spec
+def edge_id_of(src, dst, rel):
+    return ite(src <= dst, src + '__' + dst + '__' + rel, dst + '__' + src + '__' + rel)
+
+
+@spec
+def is_snap_name(n):
+    """a numbered snapshot body: snap_<digits>.json"""
+    return n.endswith('.json') and n.startswith('snap_') and n[5:-5].isdigit()
+
+
+@spec
+def snap_num(n):
+    return int_value(n[5:-5])
+
+
+@spec
+def ein_src(e):
+    return e.get('src', '')
+
+
+@spec
+def ein_dst(e):
+    return e.get('dst', '')
+
+
+@spec
+def ein_rel(e):
+    return e.get('rel', 'coact')
+
+
+@spec
+def ein_id(e):
+    """canonical key of an input edge record (eid3 = the opaque view of snapshot._edge_id)"""
+    return eid3(ein_src(e), ein_dst(e), ein_rel(e))
+
+
+@spec
+def edge_sanitized(o, e, wmin, wmax, eps):
+    """o is the record `_sanitize_gel_for_write` emits for the input edge record e"""
+    return (o['src'] == ein_src(e) and o['dst'] == ein_dst(e) and o['rel'] == ein_rel(e)
+            and o['weight'] == san_weight(e.get('weight', 0.0), wmin, wmax, eps)
+            and o['updated_at'] == e.get('updated_at') and same_value(o['attrs'], e.get('attrs', {})))
+
+
+@spec
+def wkey(rec):
+    """store key of an exported weight record"""
+    return (rec['target_kind'], rec['target_id'], rec['attr'])
+
+
+@spec
+def san_weight(w, wmin, wmax, eps):
+    """the weight `_sanitize_gel_for_write` stores for an input weight w"""
+    return ite(absr(round6(clampf_snap(w, wmin, wmax))) < eps, 0.0, round6(clampf_snap(w, wmin, wmax)))
+
+
+@spec
+def arrow_key(rec):
+    """the undirected "a→b" key of an edge record (clematis/engine/snapshot.py: write_snapshot / load_latest_snapshot)"""
+    return ite(rec['src'] <= rec['dst'], rec['src'] + '→' + rec['dst'], rec['dst'] + '→' + rec['src'])
+
+
+# ---------------------------------------------------------------- C13: planner / dialogue / sanitiser
+
+@spec
+def ws_tokens(s):
     """number of whitespace separated tokens of a string (len(s.split()))"""
     return len(s.split())
 
